@@ -639,8 +639,8 @@ pub fn checks() -> Vec<Check> {
             Scenario { name: "cycles-handles-kept", weight: 2, max_polls: 600_000, max_virtual_secs: 48 * 3600, run: sc_cycles_keep },
             Scenario { name: "many-cycles", weight: 1, max_polls: 1_500_000, max_virtual_secs: 48 * 3600, run: sc_many },
         ],
-        quick: (40_000, 50),
-        thorough: (2_000_000, 600),
+        quick: (500_000, 50),
+        thorough: (20_000_000, 600),
         rule: "each evaluation is one seeded run: configuration pair (max_ports 2-8, connect_queue 1-4, tiny buffers/queues), link profile, scheduler policy, port-number space \
 (max_ports, 2*max_ports, 64 or full u32), 1-20 cycles of 1-6 drawn operations (default connect vs accept with either cancelled part-way, connect_ext wait/no-wait with own or allocated \
 port vs inspect + accept/accept_from/reject/drop/hold, pending Connect dropped before/after sent/answer, port batches over an open port, client clones, spare port numbers, \
